@@ -149,6 +149,9 @@ static void run_words(uint64_t idx, pv_rng* rng) {
                 try_token(L, w, &t, false, "accent-block-edge", rng, rot++);
             }
         }
+        /* a combining mark typed before the first letter: an accent like any other in es/fr, a foreign character elsewhere */
+        if ((w & 3) == 1) { cps t; t.n = 0; t.c[t.n++] = 0x301; for (int i = 0; i < n; ++i) t.c[t.n++] = cp[i]; try_token(L, w, &t, false, "leading-accent", rng, rot++);
+                            if (nl > 4) { t.n = 0; t.c[t.n++] = 0x303; for (int i = 0; i < letter_at[4]; ++i) t.c[t.n++] = cp[i]; try_token(L, w, &t, false, "leading-accent-on-prefix", rng, rot++); } }
         if (latin && cp[0] >= 'a' && cp[0] <= 'z') { cps t; t.n = n; memcpy(t.c, cp, (size_t)n * 4); t.c[0] -= 32; try_token(L, w, &t, false, "uppercase-initial", rng, rot++); }
         { cps t; t.n = 0; try_token(L, w, &t, false, "empty-token", rng, rot++); }
         PV_COUNT("words.swept", 1);
